@@ -1,0 +1,1 @@
+//! Verification hooks: concurrency protocols (cargo feature `mmtk_verif`; add-only wrappers).
